@@ -448,8 +448,8 @@ class Vectorize(object):
 
         if nresets == len(self._seqs):
             self._fc_els = fc_els
-        else:
-            del self.reset
+            # this object can be reset only if all its sequences can
+            self.reset = self._reset
 
         # todo: get rid of construct,
         # a separate Lena element may be better.
@@ -501,10 +501,12 @@ class Vectorize(object):
                 res = data
             yield _maybe_with_context(res, copy.deepcopy(self._cur_context))
 
-    def reset(self):
+    def _reset(self):
         """If every sequence has a *reset()* method, this class
         is reset by resetting each *FillCompute* element.
         """
+        # This method is available as *reset* only if all sequences
+        # have reset methods.
         # reset every sequence
         for fcel in self._fc_els:
             fcel.reset()
